@@ -43,7 +43,9 @@ func (fc *FuncCtx) instr(in ssa.Instruction, st *State, reach string) *State {
 		base := fc.v(x.X)
 		el, _ := deref(x.X.Type())
 		info := eng.sorts.structInfoOf(el)
-		fc.safety("nil-deref", reach, "(not (= "+base.T+" 0))", fmt.Sprintf("field access through non-nil pointer (%s)", x.X.Name()))
+		if base.T != "" {
+			fc.safety("nil-deref", reach, "(not (= "+base.T+" 0))", fmt.Sprintf("field access through non-nil pointer (%s)", x.X.Name()))
+		}
 		if info == nil {
 			// opaque struct: fields are not modelled
 			fc.unsupported("field access into opaque type %s", el)
@@ -61,7 +63,7 @@ func (fc *FuncCtx) instr(in ssa.Instruction, st *State, reach string) *State {
 		switch t := x.X.Type().Underlying().(type) {
 		case *types.Slice:
 			fc.safety("index", reach, fmt.Sprintf("(and (<= 0 %s) (< %s (s-len %s)))", idx.T, idx.T, base.T), "slice index in range")
-			l := &Loc{kind: locElem, heap: eng.elemHeap(t.Elem()), ref: "(s-arr " + base.T + ")", idx: fmt.Sprintf("(+ (s-off %s) %s)", base.T, idx.T), gt: t.Elem()}
+			l := &Loc{kind: locElem, heap: eng.elemHeap(t.Elem()), ref: "(s-arr " + base.T + ")", idx: fmt.Sprintf("(+ (s-off %s) %s)", base.T, idx.T), gt: t.Elem(), sl: base.T, si: idx.T}
 			fc.val[x] = TV{S: "Int", G: x.Type(), L: l}
 		case *types.Pointer:
 			a := t.Elem().Underlying().(*types.Array)
@@ -429,7 +431,7 @@ func (fc *FuncCtx) convert(x *ssa.Convert, st *State, reach string) {
 		fc.val[x] = TV{T: v.T, S: "Str", G: x.Type()}
 	case tIsB && tb.Info()&types.IsString != 0 && v.S == "Slice":
 		// string(bytes)
-		h := st.get(eng.regHeap("E.Int", "(Array Int (Array Int Int))"))
+		h := st.get(eng.byteHeap())
 		fc.setVal(x, fmt.Sprintf("(bytes2str (select %s (s-arr %s)) (s-off %s) (s-len %s))", h, v.T, v.T, v.T))
 	case tIsB && tb.Info()&types.IsString != 0 && v.S == "Int":
 		f := eng.ufun("rune2str", []string{"Int"}, "Str")
